@@ -16,7 +16,9 @@ Modelled, branch by branch:
   * ValidateSecurityRequirements: empty list passes without touching anything; first satisfied requirement wins;
   * ValidateRequestBody: read + restore when there is a body; zero bytes → `required` decides; otherwise the
     outcome of decoding/validating (`BodyOutcome`, computed by the value layer KinModel/C13Body.lean) decides;
-    only an accepted body whose defaults were set is re-encoded and re-installed (`rewrite`).
+    only an accepted body whose defaults were set is re-encoded and re-installed (`rewrite`); when no encoder is
+    registered for the media type the request is rejected (`rewriteFails`) — and, as the failed call has set the
+    variable `data` to nil, a GetBody installed by the restore a few lines above now rewinds to an EMPTY body.
 Abstracted: what an authentication callback does is one of "nothing" / "reads the whole body", with a verdict.
 -/
 namespace KinModel.C13.Stream
@@ -113,6 +115,7 @@ inductive BodyOutcome
   | reject                       -- content type / decoding / schema error
   | accept                       -- accepted, no default was set
   | rewrite (newData : Bytes)    -- accepted, defaults were set: the re-encoded body
+  | rewriteFails                 -- accepted, defaults were set, but no encoder: "rewriting failed"
   deriving DecidableEq, Repr
 
 /-- ValidateRequestBody -/
@@ -128,6 +131,10 @@ def bodyPhase (required : Bool) (outcome : Bytes → BodyOutcome) (r : Req) : Re
       | .reject => (r1, false)
       | .accept => (r1, true)
       | .rewrite nd => ({ body := some nd, getBody := .ok nd, contentLength := nd.length }, true)
+      | .rewriteFails =>
+        -- `data, err = encodeBody(…)` has overwritten `data` with nil, and the GetBody closure that the restore above
+        -- installed (when the request had no working GetBody of its own) reads that very variable
+        ((match r.getBody with | .ok _ => restore (drain r) data | _ => { restore (drain r) data with getBody := .ok [] }), false)
 
 structure Cfg where
   hasAuthFunc : Bool
